@@ -30,3 +30,8 @@ let () =
        | _ :: hs -> (match TextTape.tq_scan hs Datatypes.O with
            | Some i -> hex_of_bytes (List.firstn i hs) ^ " " ^ hex_of_bytes (List.skipn (Datatypes.S i) hs)
            | None -> "ERR")) | _ -> "BADCASE")
+
+(* >>> a_c06 (C06): the Coq checker TextTapeWf.tape_wfb alone on an arbitrary tape (canonical token format) *)
+let () =
+  register "tw.wfb" (function [s] -> if TextTapeWf.tape_wfb (Ttglue.tape_of_string s) then "y" else "n" | _ -> "BADCASE")
+(* <<< a_c06 *)
